@@ -395,6 +395,16 @@ class Evaluator(object):
                 if len(fs) == 1:
                     return self.symbolic(fs[0]["ty"], name, leaves, big_arrays_as_terms)
                 return Struct([self.symbolic(f["ty"], "%s.%s" % (name, f["name"]), leaves, big_arrays_as_terms) for f in fs])
+            if t["adt_kind"] == "enum" and 1 <= len(t["variants"]) <= 8:
+                nv = len(t["variants"])
+                d = T.atom("rng", 64, (), (name + ".discr", (0, nv - 1))) if nv > 1 else 0
+                if leaves is not None and nv > 1:
+                    leaves.append(d)
+                pay = {}
+                for i, v in enumerate(t["variants"]):
+                    pay[i] = tuple(self.symbolic(f["ty"], "%s.%s.%s" % (name, v.get("name", i), f["name"]), leaves, big_arrays_as_terms)
+                                   for f in v["fields"])
+                return EnumV(d, pay)
             return OpaqueV(tyid, name)
         if k == "tuple":
             return Struct([self.symbolic(e, "%s.%d" % (name, i), leaves, big_arrays_as_terms) for i, e in enumerate(t["elems"])])
